@@ -8,3 +8,7 @@ import TradingVerif.Props.C15
 #print axioms TV.wfStarts_sorted
 #print axioms TV.mem_wfStarts
 #print axioms TV.episode_length_exact
+#print axioms TV.walk_forward_complete
+#print axioms TV.walk_forward_contiguous
+#print axioms TV.walk_forward_starts_multiple
+#print axioms TV.walk_forward_empty_iff
